@@ -238,12 +238,43 @@ def run_wideint_writes(cases, res):
             res.fail(c, 'model Store.set_val_real (exact rational factor) disagrees with the implementation although the Spec agrees', expected=str(mo)[:200], got=(got[2], got[0]))
             res.failures[-1]['no_input'] = True
 
+def run_resize_keep(cases, res):
+    """x.resize(..., restore_val=False): the raw codes are KEPT and written into the new format like any raw write - flags and callbacks
+    report what that write does to them (a code beyond the new range overflows / underflows; the stored code then differs: inexact)"""
+    fx = lib.impl(); import numpy as np
+    for c in cases:
+        rec = S.Recorder()
+        try:
+            x = fx.Fxp(list(c['keep_codes']), c['s'], c['nw'], c['nf'], raw=True, rounding=c['r'], overflow=c['o'], callbacks=[rec])
+            x.reset(); rec.log.clear()
+            x.resize(signed=c['s2'], n_word=c['nw2'], restore_val=False)
+            got = (lib.codes_of(x), lib.status3(x), list(rec.log), (bool(x.signed), int(x.n_word), int(x.n_frac)))
+        except Exception as e:
+            res.fail(c, 'C04: resize(restore_val=False) raised %s' % lib.exc_name(e), got=str(e)[:200]); continue
+        lo, hi = S.fmt_bounds(c['s2'], c['nw2']); m_ = 1 << c['nw2']
+        def store(v):
+            if lo <= v <= hi: return v
+            if c['o'] == 'saturate': return max(lo, min(hi, v))
+            w = v % m_; return w - m_ if (c['s2'] and w >= m_ // 2) else w
+        want_codes = [store(v) for v in c['keep_codes']]
+        ovf = any(v > hi for v in c['keep_codes']); unf = any(v < lo for v in c['keep_codes']); ina = want_codes != list(c['keep_codes'])
+        want_ev = [n for n, b in zip(('ovf', 'unf', 'inacc'), (ovf, unf, ina)) if b] + ['change']
+        res.count('K:resize-keeping-codes', key=repr(c), nontrivial=ovf or unf, n=len(want_codes))
+        if got != (want_codes, (ovf, unf, ina), want_ev, (c['s2'], c['nw2'], c['nf'])):
+            res.fail(c, 'C04: resize(restore_val=False) does not store the kept codes into the new format with the flags and callbacks of that write', expected=(want_codes, (ovf, unf, ina), want_ev), got=got)
+
+def gen_resize_keep(rng):
+    s, nw = rng.random() < 0.6, rng.choice([4, 6, 8, 12, 16]); lo, hi = S.fmt_bounds(s, nw)
+    return {'s': s, 'nw': nw, 'nf': rng.choice([0, 2, nw // 2]), 'keep_codes': [rng.choice([lo, hi, 0, 1, rng.randint(lo, hi)]) for _ in range(rng.choice([1, 2, 3]))],
+            's2': s if rng.random() < 0.7 else (not s), 'nw2': max(1, nw + rng.choice([-3, -2, -1, 0, 1, 2])), 'r': rng.choice(RMODES), 'o': rng.choice(OMODES)}
+
 def shard(shard, nshards, rng, tier, extra):
     res = Result()
     n = (9000 if tier == 'quick' else 60000) // nshards
     run_batch([gen_history(rng) for _ in range(n)], res)
     run_complex_writes([gen_complex_write(rng) for _ in range((1800 if tier == 'quick' else 12000) // nshards)], res)
     run_wideint_writes([gen_wideint_write(rng) for _ in range((1800 if tier == 'quick' else 12000) // nshards)], res)
+    run_resize_keep([gen_resize_keep(rng) for _ in range((900 if tier == 'quick' else 8000) // nshards)], res)
     return res
 
 def run(seed, tier):
@@ -270,5 +301,6 @@ def replay(payload):
     res = Result()
     if 're' in payload['case']: run_complex_writes([payload['case']], res)
     elif 'wide' in payload['case']: run_wideint_writes([payload['case']], res)
+    elif 'keep_codes' in payload['case']: run_resize_keep([payload['case']], res)
     else: run_batch([payload['case']], res)
     return {'holds': not res.failures, 'failures': res.failures}
